@@ -49,6 +49,19 @@ def jsettings(sspec, tspec, excluded, parallel=None):
             'excluded': [list(e) for e in excluded], 'parallel': parallel}
 
 
+def family(mgr):
+    from adsg_core.optimization.assign_enc.lazy_encoding import QuasiLazyEncoder
+    from adsg_core.optimization.assign_enc.patterns.encoder import PatternEncoderBase
+    enc = mgr.encoder
+    if isinstance(enc, PatternEncoderBase):
+        return 'pattern'
+    if isinstance(enc, QuasiLazyEncoder):
+        return 'enum'
+    if isinstance(enc, LazyEncoder):
+        return 'lazy'
+    return 'eager'
+
+
 def tup(M):
     return tuple(int(v) for v in np.array(M).ravel())
 
